@@ -35,6 +35,8 @@ package server
 //@   ensures  judged: TriggerSpec(e.cfg.TriggerRules, req.GetAttributes().GetRequest().GetHttp().GetPath()) ==> forall c int :: 0 <= c && c < len(old(e.cfg.Chains)) && ChainMatches(old(e.cfg.Chains)[c].Match, req) && (forall j int :: 0 <= j && j < c ==> !ChainMatches(old(e.cfg.Chains)[j].Match, req)) ==> RanPrefix(old(e.cfg.Chains[c].Filters), NProc - old(NProc), old(NProc), ProcLog, ProcCode) && (err == nil && len(old(e.cfg.Chains[c].Filters)) == 0 ==> response == old(deref(allow))) && (err == nil && len(old(e.cfg.Chains[c].Filters)) > 0 ==> response != nil && ChainVerdict(old(e.cfg.Chains[c].Filters), NProc - old(NProc), old(NProc), ProcCode, RespCode(response)))
 //@   loop 1 invariant nomatch: forall j int :: 0 <= j && j <= rangeindex ==> !ChainMatches(old(e.cfg.Chains)[j].Match, req)
 //@   loop 1 invariant quiet: NProc == old(NProc) && log != nil
+//@   loop 1 invariant nolocks1: nolocks()
+//@   loop 2 invariant nolocks2: nolocks()
 //@   loop 2 invariant count: NProc == old(NProc) + rangeindex + 1 && log != nil
 //@   loop 2 invariant logged: forall i int :: old(NProc) <= i && i < NProc ==> ProcLog[i] == FilterCfg(old(e.cfg.Chains[rangeindex1 + 1].Filters)[i - old(NProc)])
 //@   loop 2 invariant resp: resp != nil && fresh(resp) && (rangeindex >= 0 ==> resp.Status != nil && RespCode(resp) == 0)
